@@ -89,7 +89,7 @@ func lookupFieldTags(field reflect.StructField, parentJSONName string, config *D
 		skip := false
 		jsonName := parentJSONName + "." + field.Name
 		if tag == jsonTag {
-			jsonName = parentJSONName + "." + tagValue
+			jsonName = parentJSONName + "." + escapeJSONName(tagValue)
 		}
 		if tagValue == "-" {
 			skip = true
@@ -118,6 +118,57 @@ func lookupFieldTags(field reflect.StructField, parentJSONName string, config *D
 	}
 
 	return tagInfos, newParentJSONName, needValidate
+}
+
+// JSONName is the dotted path of member names that leads to the field. A member name can
+// contain '.' itself (`json:"user.id"`): that '.' is written as `\.` in the path, so that it
+// is not taken for a separator.
+var jsonNameEscaper = strings.NewReplacer(`\`, `\\`, `.`, `\.`)
+
+func escapeJSONName(name string) string {
+	if !strings.ContainsAny(name, `.\`) {
+		return name
+	}
+	return jsonNameEscaper.Replace(name)
+}
+
+// splitJSONName returns the member names of a JSONName, outermost first.
+func splitJSONName(name string) []string {
+	if !strings.Contains(name, `\`) {
+		return strings.Split(name, ".")
+	}
+	var ret []string
+	var cur []byte
+	for i := 0; i < len(name); i++ {
+		switch {
+		case name[i] == '\\' && i+1 < len(name):
+			i++
+			cur = append(cur, name[i])
+		case name[i] == '.':
+			ret = append(ret, string(cur))
+			cur = cur[:0]
+		default:
+			cur = append(cur, name[i])
+		}
+	}
+	return append(ret, string(cur))
+}
+
+// lastJSONNameDot returns the index of the last separator of a JSONName, -1 if there is none.
+func lastJSONNameDot(name string) int {
+	for i := len(name) - 1; i >= 0; i-- {
+		if name[i] != '.' {
+			continue
+		}
+		n := 0
+		for j := i - 1; j >= 0 && name[j] == '\\'; j-- {
+			n++
+		}
+		if n%2 == 0 {
+			return i
+		}
+	}
+	return -1
 }
 
 func getDefaultFieldTags(field reflect.StructField, parentJSONName string) (tagInfos []TagInfo, newParentJSONName string) {
